@@ -42,3 +42,10 @@ package netutil
 //@ may_panic true
 //@ at call f assert arg(a0) == ctx0 && arg(a1) == network0 && arg(a2) == address0
 //@ ensures result0 == result_of(f, 0) && result1 == result_of(f, 1)
+
+// An omitted method means GET (as in net/http); anything else must be a token.
+//@ func ValidHTTPMethod
+//@ props C07 C13
+//@ modifies nothing
+//@ at call strings.IndexFunc assert [an-omitted-method-is-checked-as-get] arg(a0) == ite(method0 == "", "GET", method0)
+//@ ensures [only-tokens] imp(result, result_of(strings.IndexFunc, 0) == -1)
